@@ -171,6 +171,9 @@ type TypeDef struct {
 	Values     []*EnumVal  // Enum
 	Inputs     []*ArgDef   // Input
 	Dirs       []DirUse
+	// GoAs (harness only, not printed): under the reflection back-ends this object type is served by the Go type of
+	// the named other object type (one Go type behind two object types).
+	GoAs string
 }
 
 func (t *TypeDef) Field(n string) *FieldDef {
